@@ -30,7 +30,7 @@ class C19(Prop):
     must_reach = ['offline/ast_visitor:StlDenseTimeOfflineAstVisitor.visitPredicate',
                   'offline/ast_visitor:StlDiscreteTimeOfflineAstVisitor.visitPredicate']
     quick_cases = 2500
-    thorough_cases = 250000
+    thorough_cases = 1500000
     shrink_data = False
 
     def gen(self, rng, ctx):
